@@ -114,9 +114,16 @@ func (s mstep) String() string {
 type mconfig struct {
 	Init    string // none | shared | onlyA | onlyB
 	Dialers string // A | B | AB
+	Order   string // "" or "A<B": A has the lower address; "B<A"
 }
 
-func (c mconfig) String() string { return "init=" + c.Init + ",dial=" + c.Dialers }
+func (c mconfig) String() string {
+	s := "init=" + c.Init + ",dial=" + c.Dialers
+	if c.Order == "B<A" {
+		s += ",order=B<A"
+	}
+	return s
+}
 
 var allInits = []string{"none", "shared", "onlyA", "onlyB"}
 var allDialers = []string{"A", "B", "AB"}
@@ -228,8 +235,9 @@ func (st *mstate) cacheKind(s int) string {
 }
 
 // apply executes one step; row is the table row used (decide/reap steps).
-func (st mstate) apply(e mstep, tb *tables) (mstate, string, error) {
+func (st mstate) apply(e mstep, tp *tablePair, order string) (mstate, string, error) {
 	s := e.S
+	tb := tp.of(s, order)
 	switch e.Kind {
 	case "check":
 		d := &st.Dial[s]
@@ -421,7 +429,7 @@ type mgraph struct {
 	trans  int
 }
 
-func explore(cfg mconfig, tb *tables) (*mgraph, error) {
+func explore(cfg mconfig, tb *tablePair) (*mgraph, error) {
 	g := &mgraph{cfg: cfg, index: map[mstate]int{}}
 	add := func(st mstate, parent int, step mstep, depth int) int {
 		if i, ok := g.index[st]; ok {
@@ -442,7 +450,7 @@ func explore(cfg mconfig, tb *tables) (*mgraph, error) {
 		st := g.states[i]
 		g.quiet[i] = st.quiescent()
 		for _, e := range st.enabled() {
-			nx, row, err := st.apply(e, tb)
+			nx, row, err := st.apply(e, tb, cfg.Order)
 			if err != nil {
 				return nil, fmt.Errorf("%s after %s: step %s: %w", cfg, g.traceString(i), e, err)
 			}
